@@ -31,6 +31,7 @@ Vals == {1, 2}
 Ops ==
        {<<"set", n, "", v, {}, {}>>    : n \in NamesS, v \in Vals}
   \cup {<<"setlog", n, "", v, {}, {}>> : n \in NamesS, v \in Vals}
+  \cup {<<"setlogf", n, "", v, {}, {}>> : n \in NamesS, v \in Vals}   \* logged set whose log write FAILS inside the store
   \cup {<<"del", n, "", 0, {}, {}>>    : n \in NamesS}
   \cup {<<"get", n, "", 0, {}, {}>>    : n \in NamesS}
   \cup {<<"log", n, "", 0, {}, {}>>    : n \in NamesS}
@@ -47,6 +48,7 @@ Ops ==
 Apply(o) ==
   CASE o[1] = "set"        -> Set(refs, logs, o[2], o[4])
     [] o[1] = "setlog"     -> SetWithLog(refs, logs, o[2], o[4], 0)
+    [] o[1] = "setlogf"    -> St(refs, logs, Err)      \* a logged set is one operation: failing half way leaves nothing behind
     [] o[1] = "del"        -> Delete(refs, logs, o[2])
     [] o[1] = "get"        -> Get(refs, logs, o[2])
     [] o[1] = "log"        -> LogRead(refs, logs, o[2])
@@ -74,6 +76,7 @@ FsStep(o) ==
     [] o[1] = "copy"   -> IF o[2] \notin DOMAIN refs THEN 2
                           ELSE IF o[2] = o[3] THEN 1
                           ELSE IF o[3] \in DOMAIN refs \/ o[2] \notin DOMAIN logs THEN 0 ELSE 2
+    [] o[1] = "setlogf" -> 0
     [] o[1] = "filter" -> IF Cardinality(o[5]) = 1 /\ o[6] = {} /\ \A q \in o[5] : EndsWithSlash(q) THEN 2 ELSE 0
     [] OTHER           -> 2
 Min2(a, b) == IF a < b THEN a ELSE b
